@@ -79,7 +79,8 @@ def step (st : Store) (ws : List String) : Store × String :=
           | .error e => some ("err " ++ errStr e)
           | .ok (content, ps, cs) =>
             let cause := if knownCanonicalCause ciCompare tl tr ps then "1" else "0"
-            some s!"ok {kvsStr content} {listStr (ps.map patchStr)} {listStr (cs.map collStr)} cause={cause}"
+            let straddle := if knownStraddleCause ciCompare (collideOf mode) tb tl tr then "1" else "0"
+            some s!"ok {kvsStr content} {listStr (ps.map patchStr)} {listStr (cs.map collStr)} cause={cause} straddle={straddle}"
       | ["spec", b, l, r, mode] => do
           let tb ← getTree st b; let tl ← getTree st l; let tr ← getTree st r
           let (content, cs) := merge3Lists ciCompare (collideOf mode) tb.flatten tl.flatten tr.flatten
